@@ -432,6 +432,29 @@ func TestC08NonArray(t *testing.T) {
 	}
 }
 
+// TestC08Padded: zero-padded slice parameters whose digits read differently in another base
+// (010 = ten, not eight; 08 and 09 are numbers), in every position.
+func TestC08Padded(t *testing.T) {
+	vals := []string{"_", "010", "-010", "08", "-09", "0012", "00", "-00", "017", "0100", "-0011", "007"}
+	n := 0
+	for _, ln := range []float64{13, 120} {
+		for _, a := range vals {
+			for _, b := range vals {
+				for _, c := range vals {
+					for _, carrier := range []string{"root", "rhs", "typed-float"} {
+						run(t, Case{Property: "C08", Kind: "slice", Expr: sliceExpr(a, b, c), Extra: map[string]interface{}{"len": ln, "a": a, "b": b, "c": c, "carrier": carrier}})
+						n++
+					}
+				}
+			}
+		}
+	}
+	st := statsFor("C08")
+	st.mu.Lock()
+	st.Exhaustive["C08.padded"] = fmt.Sprintf("%d zero-padded spellings (incl. 08, 09, 010, 017, 0100) in every slice position x arrays of 13 and 120 elements x 3 carriers: %d slices", len(vals)-1, n)
+	st.mu.Unlock()
+}
+
 // TestC08Random: larger arrays with random 64-bit parameters (oracle: reference
 // slice model, itself calibrated against the golden file).
 func TestC08Random(t *testing.T) {
@@ -450,7 +473,18 @@ func TestC08Random(t *testing.T) {
 			}
 		}
 		a, b, c := part("start"), part("stop"), part("step")
-		// (padding is applied by the case: "pad" = number of leading zeros on every present part)
+		// leading zeros do not change a number ("number" is -?[0-9]+, read in base ten)
+		pad := func(s, label string) string {
+			if s == "_" || uni(t, 3, label+"Pad") != 0 {
+				return s
+			}
+			z := strings.Repeat("0", 1+uni(t, 3, label+"Zeros"))
+			if strings.HasPrefix(s, "-") {
+				return "-" + z + s[1:]
+			}
+			return z + s
+		}
+		a, b, c = pad(a, "start"), pad(b, "stop"), pad(c, "step")
 		carrier := rapid.SampledFrom([]string{"root", "field", "after-projection", "rhs", "typed-float", "typed-string"}).Draw(t, "carrier")
 		run(t, Case{Property: "C08", Kind: "slice", Expr: sliceExpr(a, b, c), Extra: map[string]interface{}{"len": float64(n), "a": a, "b": b, "c": c, "carrier": carrier}})
 	})
@@ -611,7 +645,7 @@ func TestC10Random(t *testing.T) {
 
 // typed universe for C09
 var c09Numbers = []string{"1e21", "1e-7", "5e-324", "0.23333333333333334", "1.7976931348623157e308", "-1e308", "6.02214076e23", "1e20", "123456789012345680000", "1.2345678901234568e-10", "0", "-0", "1", "-1", "1.5", "-1.5", "2.5", "1e15", "-7", "1e19", "-1e19", "9223372036854775808", "1e21", "1e300", "9007199254740993", "0.1", "1e-7", "123456789.125", "-2.5"}
-var c09Strings = []string{`"9223372036854775807"`, `"9223372036854775808"`, `"9999999999999999999"`, `"18446744073709551616"`, `"0.23333333333333334"`, `"\ufffdabc"`, `"\u007f"`, `"𝄞"`, `"a\u0301"`, `"ǆ"`, `"a𝄞"`, `"𝄞𝄞𝄞"`, `""`, `"a"`, `"b"`, `"ab"`, `"é"`, `"𝒳y"`, `"10"`, `"1e2"`, `"-0"`, `" 1"`, `"inf"`, `"nan"`, `"Infinity"`, `"0x1p4"`, `"1_0"`, `"é"`, `"aé𝒳"`, `"1.0"`, `"-1.5e-3"`, `"1e999"`, `"+1"`, `".5"`}
+var c09Strings = []string{`"null"`, `"true"`, `"[]"`, `"9223372036854775807"`, `"9223372036854775808"`, `"9999999999999999999"`, `"18446744073709551616"`, `"0.23333333333333334"`, `"\ufffdabc"`, `"\u007f"`, `"𝄞"`, `"a\u0301"`, `"ǆ"`, `"a𝄞"`, `"𝄞𝄞𝄞"`, `""`, `"a"`, `"b"`, `"ab"`, `"é"`, `"𝒳y"`, `"10"`, `"1e2"`, `"-0"`, `" 1"`, `"inf"`, `"nan"`, `"Infinity"`, `"0x1p4"`, `"1_0"`, `"é"`, `"aé𝒳"`, `"1.0"`, `"-1.5e-3"`, `"1e999"`, `"+1"`, `".5"`}
 var c09NumArrays = []string{"[]", "[1]", "[3,1,2]", "[1,1,1]", "[2,-1,2,0.5]", "[1e15,-1e15,1]", "[0,-0]"}
 var c09StrArrays = []string{"[]", `["a"]`, `["b","a","c"]`, `["a","a"]`, `["é","e","z","𝒳","Z"]`, `["","a",""]`, `["ab","a","abc"]`}
 var c09ObjArrays = []string{
@@ -768,6 +802,8 @@ var numberishRunes = []rune("0123456789+-.eExXpP_infINFatyNn ")
 // TestC09ToNumber: strings built from number-ish characters.
 func TestC09ToNumber(t *testing.T) {
 	for _, s := range []string{"inf", "+inf", "-inf", "Inf", "INF", "infinity", "-Infinity", "nan", "NaN", "+nan", "1e309", "-1e309", "1e-400", "0x1p1024", "0X1P-2", "1_000", "١٢", "１２", " 12", "12 ", "1e", "e1", "--1", "", "0", "-0", "1.5", "1E2",
+		// texts that are JSON values but not numbers (a JSON decoder used as number parser accepts some of them)
+		"null", "true", "false", "[]", "{}", "\"\"", "\"x\"", " null", "null ", "Null", "nil", "-", "+", ".", "e", "--", "\n", "\tnull",
 		"9223372036854775807", "9223372036854775808", "9999999999999999999", "-9223372036854775808", "-9223372036854775809", "18446744073709551615", "18446744073709551616", "9007199254740993", "0.23333333333333334", "1.4000000000000001",
 		"123456789012345678", "1234567890123456789", "12345678901234567890", "123456789012345678901", "99999999999999999999999", "0.000000000000000000000000000001", "1.7976931348623157e308", "1.7976931348623159e308", "4.9e-324", "2e-324", "1e-400", "-1e-400", "00", "01", "1.", ".5", "-.5", "+1", "1e+2", "1E-2", "0e0", "-0e0", "0.0", "-0.0"} {
 		run(t, Case{Property: "C09", Kind: "tonumber", Extra: map[string]interface{}{"s": s}})
@@ -895,6 +931,8 @@ var strictCtx = []struct{ name, tmpl string }{ // contexts named in rebinding (b
 	{"value-proj", "%s.*"}, {"pipe-left", "%s | @"}, {"pipe-right", "@ | %s"}, {"or-left", "%s || `1`"}, {"and-left", "%s && `1`"},
 	{"or-right", "`false` || %s"}, {"and-right", "`true` && %s"}, {"not", "!%s"}, {"cmp-left", "%s == `1`"}, {"cmp-right", "`1` < %s"},
 	{"list-member", "[`1`, %s, `2`]"}, {"hash-member", "{k: %s}"}, {"paren", "(%s)"},
+	// a repeated key: which value the key ends up with is unspecified, but every member is evaluated
+	{"hash-dup-first", "{k: %s, k: `1`}"}, {"hash-dup-last", "{k: `1`, k: %s}"}, {"hash-dup-quoted", "{\"k\": %s, j: `2`, k: `1`}"},
 	{"arg-abs", "abs(%s)"}, {"arg-not_null-2", "not_null(`1`, %s)"}, {"arg-contains-2", "contains(`[1]`, %s)"}, {"arg-merge-2", "merge(`{}`, %s)"},
 	{"arg-join-1", "join(%s, `[\"a\"]`)"}, {"arg-to_array", "to_array(%s)"}, {"arg-type", "type(%s)"}, {"arg-length", "length(%s)"},
 	{"map-body", "map(&%s, `[1,2]`)"}, {"sort_by-key", "sort_by(`[1,2]`, &%s)"}, {"max_by-key", "max_by(`[1,2]`, &%s)"}, {"min_by-key1", "min_by(`[1]`, &%s)"},
@@ -962,7 +1000,7 @@ var rebinding = map[string]bool{"map-body": true, "sort_by-key": true, "max_by-k
 	"flatten-rhs-arg": true, "vproj-rhs-arg": true, "slice-rhs-arg": true, "filter-rhs-arg": true, "sub-rhs-hash": true, "expref-pipe": true}
 
 // multi-select contexts evaluate their members only on a non-null current node
-var needsNonNull = map[string]bool{"list-member": true, "hash-member": true, "sub-rhs-list": true}
+var needsNonNull = map[string]bool{"list-member": true, "hash-member": true, "sub-rhs-list": true, "hash-dup-first": true, "hash-dup-last": true, "hash-dup-quoted": true}
 
 func isFixedSeed(s string) bool {
 	for _, f := range errSeeds {
